@@ -351,6 +351,10 @@ func (c *ShardedMapOf[V]) Restore(r io.Reader) (int, error) {
 			return n, err
 		}
 
+		if e.E != 0 {
+			c.t.notifyExpirationSet()
+		}
+
 		h := xxhash.Sum64(e.K)
 		b := &c.hashedBuckets[h%shards]
 
